@@ -16,14 +16,32 @@ PLAN = dict(
          "Finish on a fresh object, then the object is reused (Finish / Write+Sum / Write+Finish) and must behave as new; c11.eia.bytes = "
          "byte lengths 0..200 (600) x 5 Write partitions, Sum twice, continue, Sum, Reset, reuse; c11.eia.hist = random histories over "
          "Write/Sum/Finish/Reset against the model 'bytes absorbed since the last Finish/Reset'. Every tag is compared with the bit-by-bit "
-         "reference. distinct = distinct class keys (configuration | family / bucket / operation / position mod 128 class / length class / "
+         "reference. Refused calls: a call the object refuses by its argument check is no transition of the model, the documented panic is "
+         "recovered and not judged, a call that is NOT refused is a violation, and the history goes on against the model that did not move: "
+         "Finish(p, nbits) with len(p) < ceil(nbits/8) (exactly the whole bytes, one byte less, empty, nil, half; on a fresh object before the "
+         "real Finish for every bit length of c11.eia.bits, on the reused object, as a step of c11.eia.hist) for the five MAC kinds; "
+         "XORKeyStream / XORKeyStreamAt with len(dst) < len(src) in disjoint buffers (a step of c11.eea.walk with probability 1/12; in "
+         "c11.eea.grid after the positioned call of every 4th target). After a refused XORKeyStream the position must be unchanged; after a "
+         "refused XORKeyStreamAt(off) the property fixes no position and the model keeps the accept-set {old position, off}, resolved by the "
+         "next sequential call (events refused_at_position_moved/_kept), the keystream content being checked at the resolved position. "
+         "c11.mixed = 800 (thorough 16000) cases that each create, in ONE process and in a drawn order, one object of each of the 11 kinds "
+         "(NewCipher 16/16, NewCipher 32/23, NewEEACipher, each plain and ...WithBucketSize incl. a negative size; NewHash, NewEIAHash, "
+         "NewHash256 with 4/8/16-byte tags), half of them under key material shared across kinds, using new and older objects in between; "
+         "then 4-19 drawn steps (use of a drawn object, refused call, constructor with wrong key/IV/tag size which must return an error "
+         "and change nothing, twin A' built from the parameters of a live object A and both used), then a closing examination of every "
+         "object (cipher: re-read from offset 0..3 and go on; MAC: Sum and Finish) and twins of the oldest objects; every single use is judged "
+         "by the per-object model against the reference, so state that one kind or parameter choice leaves in the package for another shows "
+         "at the next use. distinct = distinct class keys (configuration | family / bucket / operation / position mod 128 class / length class / "
          "seek class with first-or-repeated landing in a checkpoint bucket; MAC algorithm / block count class / bit length mod 128 / "
-         "message kind; partition style; history operation with buffered byte count)",
+         "message kind; partition style; history operation with buffered byte count; refused call kind / shortfall / position class; "
+         "mixed: kind created after kind, kind used while kind was created last, twin of an object used 0..3+ times, refused constructor "
+         "with its sizes)",
     jobs=both("c11.eea.walk", _CFG, shards=(6, 16), floor=1000)
     + both("c11.eea.grid", _CFG, shards=(2, 8), floor=1000)
     + both("c11.eia.bits", _CFG, shards=(2, 8), floor=5000)
     + both("c11.eia.bytes", _CFG, shards=(2, 8), floor=1000)
     + both("c11.eia.hist", _CFG, shards=(2, 8), floor=1000)
+    + both("c11.mixed", _CFG, shards=(2, 8), floor=500)
     # thorough only: the assembly-backed histories once more under -race (implies checkptr)
     + [dict(J("c11.eea.walk", ["avx2", "sse"], "race", shards=(1, 8)), thorough_only=True),
        dict(J("c11.eia.hist", ["avx2", "sse"], "race", shards=(1, 4)), thorough_only=True)],
@@ -31,7 +49,10 @@ PLAN = dict(
         "harness/ref/zuc (ZUC-128, ZUC-256, 128-EEA3, 128-EIA3, ZUC-256 MAC bit by bit) is right: validated at start-up against the "
         "specification keystream vectors (ZUC-128 sets 1-4 incl. word 2000, ZUC-256 all-zero/all-one), the 3GPP EEA3/EIA3 "
         "implementors' test data and the 12 ZUC-256 MAC examples, with every S-box entry exercised by those vectors",
-        "the ZUC-256 IV form is the 23-byte packed one (the only one the constructors accept); BEARER < 32 and DIRECTION < 2",
+        "the ZUC-256 IV form is the 23-byte packed one (the only one the constructors accept; a 25-byte IV is refused but that refusal "
+        "is not judged); BEARER < 32 and DIRECTION < 2",
+        "refused calls are recognised by the recovered panic (Finish, XOR calls) or the error (constructors) of the pinned tree; negative "
+        "nbits, overlapping-inexact buffers and offsets above 64 KiB are not issued",
         "open finding zuc256-tail-window is excused only when the input is in its class AND the tag equals the model of the "
         "mis-indexed tail window run on the reference keystream; the model is itself checked at start-up against the tags pinned "
         "by TestEIA256_Finish and against the specification outside the class",
@@ -44,11 +65,16 @@ CLAIM = dict(
          "operation by operation, with the standard keystream at the absolute positions given by a sequential model; 128-EIA3 and the "
          "ZUC-256 MAC (32/64/128-bit tags) are compared with a bit-by-bit reference for every bit length 0..700 and for byte messages "
          "under every Write partition style, including Sum non-destructiveness and reuse after Finish/Reset; all buffers handed to the "
-         "assembly sit against guard pages in both placements. Exploration: held on the cases executed, except the open finding "
+         "assembly sit against guard pages in both placements. Calls refused by an argument check (Finish with a buffer shorter than nbits, "
+         "XOR calls with dst shorter than src, constructors with wrong key/IV/tag sizes) are issued inside the histories and must leave the "
+         "object and every other object as they were (after a refused XORKeyStreamAt either the old position or the offset is accepted); "
+         "c11.mixed creates and uses every cipher and MAC kind of the package interleaved in one process in drawn orders, with twins of live "
+         "objects, so that package-level state left by one kind or parameter choice for another is observed. Exploration: held on the cases executed, except the open finding "
          "zuc256-tail-window (ZUC-256 MAC with 64/128-bit tags, bit length mod 128 in 33..64 / 33..127), which is re-observed and "
          "matched exactly by its bug model.",
     design_ref="DESIGN.md 6 (C11)",
     note="trusted: harness/ref/zuc (validated against published vectors incl. S-box coverage), Go runtime, kernel page protection; "
          "keys/IVs are sampled; offsets above 64 KiB and single calls above 8 KiB are not exercised",
-    technique="history monitor with sequential model + differential bitwise reference + guard pages + bug-model matcher",
+    technique="history monitor with sequential model (incl. refused calls and cross-kind object interleaving in one process) + "
+              "differential bitwise reference + guard pages + bug-model matcher",
 )
